@@ -50,6 +50,20 @@ pub fn nameok(args: &[String]) -> String {
                 _ => false,
             }
         }
+        // the DOM factories: the name a node is created with has to be a name of its kind, all of it
+        "dom-pi" | "dom-elem" | "dom-attr" | "dom-entref" => {
+            use xml_dom::DocumentMut;
+            let doc = match xml_dom::XmlDocument::from_raw("<r/>") {
+                Ok((_, d)) => d,
+                Err(_) => return "bad-op".to_string(),
+            };
+            match kind {
+                "dom-pi" => doc.create_processing_instruction(&s, "d").is_ok(),
+                "dom-elem" => doc.create_element(&s).is_ok(),
+                "dom-attr" => doc.create_attribute(&s).is_ok(),
+                _ => doc.create_entity_reference(&s).is_ok(),
+            }
+        }
         _ => return "bad-op".to_string(),
     };
     if ok { "1".to_string() } else { "0".to_string() }
